@@ -80,7 +80,7 @@ var specs = []spec{
 	{Out: "ArgSkeleton", Arch: "amd64", Pkg: "./arg", Skeletons: []string{"I2V", "toValue", "V2I"}},
 	{Out: "MockerSkeleton", Arch: "amd64", Pkg: ".", Skeletons: []string{"DefMocker.Apply", "MethodMocker.Apply", "UnexportedMethodMocker.Apply",
 		"UnexportedFuncMocker.Apply", "DefaultInterfaceMocker.Apply", "baseMocker.applyByName", "baseMocker.applyByFunc", "baseMocker.applyByMethod",
-		"baseMocker.applyByIFaceMethod", "baseMocker.Cancel", "defaultVarMocker.Set", "defaultVarMocker.Apply", "defaultVarMocker.Cancel", "defaultVarMocker.doSet"}},
+		"baseMocker.applyByIFaceMethod", "baseMocker.Cancel", "defaultVarMocker.Set", "defaultVarMocker.Apply", "defaultVarMocker.Cancel", "defaultVarMocker.doSet", "unExportedVarMocker.set"}},
 	{Out: "ArgPurity", Arch: "amd64", Pkg: "./arg", Pure: map[string][]string{
 		"arg_eval": {"*.Eval", "equal", "ExpandVariadic"},
 	}},
